@@ -318,4 +318,21 @@ PROPS = {
         assumptions=["libdeflater is trusted to inflate blocks for the walker"],
     ),
 }
+def _c20_prop():
+    import c20
+    return c20.PROP
+
+
 NOT_APPLICABLE = {}
+
+
+def _late():
+    """Modules with Python-side oracles: importing them registers their replayers."""
+    import c09  # noqa: F401
+    import c10  # noqa: F401
+    import c20
+    PROPS["C20"] = c20.PROP
+    c20.register()
+
+
+_late()
